@@ -119,6 +119,9 @@ func checkC09(c *Ctx) error {
 		if i%4 != 3 {
 			gen.AddDecoys(r, parts)
 		}
+		if i%3 != 2 {
+			gen.AddEmpties(r, parts)
+		}
 		if normalize(ref.MergeAll(parts)) != normalize(*conf) {
 			c.Inconclusive(fmt.Sprintf("splitter self-check failed on case %d", i))
 			return
